@@ -42,6 +42,9 @@ type COp struct {
 
 type CondInput struct {
 	Ops []COp `json:"ops"`
+	// LogAll: every log level is switched on (the logger stays the discarding
+	// default) as soon as the Condition exists: logging has no say in behaviour
+	LogAll bool `json:"logall,omitempty"`
 }
 
 // a foreign type with a String method; nz keeps a value non-zero even when
@@ -173,6 +176,7 @@ func (o *COp) Coq() string {
 }
 
 type condRun struct {
+	logAll    bool
 	invariant string
 	c         stk.Condition
 	nodes     map[string]*Node // ID -> description of every Stack / Condition built for this history
@@ -285,6 +289,9 @@ func (h *condRun) descOf(v any) (string, bool, any) {
 }
 
 func (h *condRun) exec(o *COp) {
+	if h.logAll && (o.Op == "cond" || o.Op == "init") {
+		defer func() { h.c.SetLogLevel(stk.AllLogLevels) }()
+	}
 	switch o.Op {
 	case "cond":
 		h.register(o.Ex)
@@ -404,6 +411,26 @@ func liveOperatorProbe() (problem string) {
 			return fmt.Sprintf("operator accepted through %s, text then changed by its owner: the parent's String() = %q, want %q", via, got, want)
 		}
 	}
+	// with no-nesting off a Stack is accepted whatever it holds - the Condition itself
+	// included (only IsNesting / CanNest / Expression are asked: they do not walk the cycle)
+	for _, form := range []string{"native", "alias", "ptr"} {
+		c := stk.Cond("k", stk.Eq, "before")
+		holder := stk.And().Push("x", stk.Or().Push(c))
+		var ex any = holder
+		switch form {
+		case "alias":
+			ex = aStack(holder)
+		case "ptr":
+			a := aStack(holder)
+			ex = &a
+		}
+		can := c.CanNest()
+		c.SetExpression(ex)
+		_, isStr := c.Expression().(string)
+		if !can || isStr || !c.IsNesting() {
+			return fmt.Sprintf("no-nesting off, a Stack (%s) that holds the Condition offered as its expression: CanNest() said %v, the old expression was kept: %v, IsNesting() = %v (want true, false, true)", form, can, isStr, c.IsNesting())
+		}
+	}
 	return ""
 }
 
@@ -412,7 +439,7 @@ func runCond(raw json.RawMessage) (res *Result, err error) {
 	if err = json.Unmarshal(raw, &in); err != nil {
 		return nil, err
 	}
-	h := &condRun{nodes: map[string]*Node{}}
+	h := &condRun{nodes: map[string]*Node{}, logAll: in.LogAll}
 	var opTs, obTs []string
 	var recs []any
 	tags := map[string]bool{}
@@ -817,8 +844,25 @@ func genCond(ctx *Ctx, emit func(any, string)) {
 		if i%10 == 9 {
 			rej = 75 // the malformed stream
 		}
-		emit(g.history(rej), "random")
+		hst := g.history(rej)
+		hst.LogAll = i%4 == 1
+		emit(hst, "random")
 	}
+	// the short histories again with every log level on (logger: the discarding default)
+	var rec2 func(prefix []COp, d int, start []COp)
+	rec2 = func(prefix []COp, d int, start []COp) {
+		if len(prefix) > 0 {
+			emit(CondInput{Ops: cloneOps(append(append([]COp{}, start...), prefix...)), LogAll: true}, "exhaustive")
+		}
+		if d == 0 {
+			return
+		}
+		for _, o := range alpha {
+			rec2(append(append([]COp{}, prefix...), o), d-1, start)
+		}
+	}
+	rec2(nil, 2, starts[0])
+	rec2(nil, 1, starts[1])
 }
 
 func init() {
